@@ -242,19 +242,61 @@ def r3_refusals(ctx):
 
 def r4_pad_before_store(ctx):
     fn = ctx.func('segment', 'Segment.set')
+    # fillers must be distinct objects: no list multiplication of a mutable element anywhere in segment.py / x12context.py
+    for modname in ('segment', 'x12context'):
+        m = ctx.mod(modname)
+        hits = []
+        for n_ in ast.walk(m.tree):
+            if isinstance(n_, ast.BinOp) and isinstance(n_.op, ast.Mult):
+                for side in (n_.left, n_.right):
+                    if isinstance(side, ast.List) and any(isinstance(e_, (ast.Call, ast.List, ast.Dict, ast.Set)) for e_ in side.elts):
+                        hits.append(n_)
+        yield Ob('%s: no list multiplication of a mutable element' % modname, not hits, ctx.loc(m, hits[0]) if hits else m.relpath,
+                 '' if not hits else '`%s` puts one shared object into every slot: writing a component into one slot changes the others' % norm(hits[0]))
     g = ctx.cfg(fn)
     dom = g.dominators()
-    # padding loops: while len(X) <= i: X.append(...)
+    # padding loops: `while <test>: X.append(...)` where the loop can only be left with len(X) > idx
+    # (the test is evaluated over lengths and indices 0..6, so `<= i`, `< i + 1`, `not len(X) > i` are all accepted)
     pads = {}
+    other_growth = []
     for nd in g.nodes:
-        if nd.kind == 'test' and isinstance(nd.stmt, ast.While) and isinstance(nd.ast, ast.Compare) and isinstance(nd.ast.ops[0], ast.LtE):
-            l, r = nd.ast.left, nd.ast.comparators[0]
-            if isinstance(l, ast.Call) and path_of(l.func) == 'len':
-                cont = norm(l.args[0])
-                body_ok = any(isinstance(c, ast.Call) and A.call_target(c)[1] == 'append' and
-                              norm(c.func.value).startswith(cont) for s in nd.stmt.body for c in A.calls_in(s))
-                if body_ok:
-                    pads[(cont, norm(r))] = nd
+        if nd.kind == 'test' and isinstance(nd.stmt, ast.While):
+            apps = [c for s_ in nd.stmt.body for c in A.calls_in(s_) if A.call_target(c)[1] == 'append']
+            if not apps:
+                continue
+            cont = norm(apps[0].func.value)
+            lens = [x for x in ast.walk(nd.stmt.test) if isinstance(x, ast.Call) and path_of(x.func) == 'len' and x.args and norm(x.args[0]).startswith(cont.split('.elements')[0])]
+            if not lens:
+                continue
+            measured = norm(lens[0].args[0])
+            import copy
+            test2 = copy.deepcopy(nd.stmt.test)
+            for par in ast.walk(test2):
+                for fld, val in ast.iter_fields(par):
+                    if isinstance(val, ast.Call) and path_of(val.func) == 'len' and val.args and norm(val.args[0]) == measured:
+                        setattr(par, fld, ast.Name(id='__len', ctx=ast.Load()))
+                    elif isinstance(val, list):
+                        for k_, v_ in enumerate(val):
+                            if isinstance(v_, ast.Call) and path_of(v_.func) == 'len' and v_.args and norm(v_.args[0]) == measured:
+                                val[k_] = ast.Name(id='__len', ctx=ast.Load())
+            idxs = sorted(A.free_paths(test2) - {'__len'})
+            if len(idxs) != 1:
+                continue
+            idx = idxs[0]
+            ok_exit = True
+            try:
+                for L in range(0, 7):
+                    for i in range(0, 7):
+                        stay = bool(A.ev(test2, {'__len': L, idx: i}))
+                        if not stay and not L > i:
+                            ok_exit = False
+            except A.NotClosed:
+                continue
+            pads[(measured if measured == cont or cont.startswith(measured) else cont, idx)] = (nd, ok_exit)
+    for nd in g.nodes:
+        for x in g.walk_exprs(nd):
+            if isinstance(x, ast.Call) and A.call_target(x)[1] in ('extend', 'insert') and 'elements' in norm(x.func.value):
+                other_growth.append(x)
     stores = []
     for nd in g.nodes:
         if nd.kind == 'stmt' and isinstance(nd.ast, ast.Assign):
@@ -263,15 +305,29 @@ def r4_pad_before_store(ctx):
                 stores.append((nd, norm(t.value), norm(t.slice)))
     if len(stores) < 3:
         raise AnalysisError('Segment.set: element stores not found')
+    if not pads and other_growth:
+        raise AnalysisError('Segment.set: the padding code is not the recognised `while len(X) <= i: X.append(..)` idiom (%s); cannot decide pad-before-store' % norm(other_growth[0]))
+
+    def pad_for(cont, idx):
+        for (c, i), v in pads.items():
+            if i == idx and (c == cont or c.replace('.elements', '') == cont or cont.replace('.elements', '') == c):
+                return v
+        return None
     for nd, cont, idx in stores:
-        # the F edge of the padding loop test must dominate the store
-        pad = pads.get((cont, idx))
-        ok = pad is not None and pad.id in dom[nd.id]
-        yield Ob('segment:Segment.set store %s[%s] after padding' % (cont, idx), ok, ctx.floc(fn, nd.ast),
-                 '' if ok else 'no dominating `while len(%s) <= %s: append` loop: IndexError (or a silent misplacement) for a short segment' % (cont, idx))
+        pad = pad_for(cont, idx)
+        if pad is None and any(norm(x.func.value) == cont for x in other_growth):
+            raise AnalysisError('Segment.set: %s is grown by `%s`, not by the recognised `while len(X) <= i: X.append(..)` idiom; '
+                                'cannot decide pad-before-store for this store' % (cont, norm([x for x in other_growth if norm(x.func.value) == cont][0])))
+        ok = pad is not None and pad[0].id in dom[nd.id] and pad[1]
+        why = ''
+        if pad is None or pad[0].id not in dom[nd.id]:
+            why = 'no dominating padding loop on %s for index %s: IndexError (or a silent misplacement) for a short segment' % (cont, idx)
+        elif not pad[1]:
+            why = 'the padding loop `%s` can end with len(%s) <= %s: the store then fails or hits the wrong slot' % (norm(pad[0].ast), cont, idx)
+        yield Ob('segment:Segment.set store %s[%s] after padding' % (cont, idx), ok, ctx.floc(fn, nd.ast), why)
         if cont != 'self.elements':
-            pad0 = pads.get(('self.elements', 'ele_idx'))
-            ok = pad0 is not None and pad0.id in dom[nd.id]
+            pad0 = pad_for('self.elements', 'ele_idx')
+            ok = pad0 is not None and pad0[0].id in dom[nd.id]
             yield Ob('segment:Segment.set component store after the element exists', ok, ctx.floc(fn, nd.ast), '' if ok else 'element padding does not dominate')
     # (a designator without element index -- set('NM1', v) -- is outside the property's quantifier: not armed;
     #  today it raises TypeError in the padding loop, recorded in DESIGN.md as an observation)
@@ -326,6 +382,6 @@ RULES = [
     Rule('C17.R1', 'rec_path / rec_seg_id equal the documented grammars (DFA equivalence)', r1_languages, floor=5),
     Rule('C17.R2', 'printer/parser agreement of format_refdes and __repr__ vs __init__', r2_print_parse, floor=8),
     Rule('C17.R3', 'refusal conditions over all part combinations; foreign segment id refused before index use', r3_refusals, floor=5),
-    Rule('C17.R4', 'Segment.set pads before it stores; Segment.get tests each index', r4_pad_before_store, floor=8),
+    Rule('C17.R4', 'Segment.set pads before it stores; Segment.get tests each index', r4_pad_before_store, floor=9),
     Rule('C17.R5', 'every map node path component parses into its own parts', r5_map_paths, floor=2400),
 ]
